@@ -1,5 +1,5 @@
 from itertools import product
-from numpy import cos, pi, log, exp, mean, sqrt, tanh, inf
+from numpy import cos, pi, log, exp, mean, std, sqrt, tanh, inf
 from numpy import array, ndarray, linspace, zeros, atleast_1d
 from scipy.integrate import simpson, quad
 from scipy.optimize import minimize
@@ -35,6 +35,14 @@ class UnimodalPdf(DensityEstimator):
         # first minimise based on a slice of the sample, if it's large enough
         self.cutoff = 2000
         self.skip = max(self.n_samps // self.cutoff, 1)
+
+        # the fit is carried out on the standardised sample, so that the step sizes
+        # and (absolute) convergence tolerances of the optimiser, and hence the
+        # result, do not depend on the units or the location of the data
+        loc, scale = mean(self.sample), std(self.sample)
+        scale = scale if scale > 0 else 1.0
+        original_sample = self.sample
+        self.sample = (original_sample - loc) / scale
         self.fitted_samples = self.sample[:: self.skip]
 
         # makes guesses based on sample moments
@@ -67,6 +75,18 @@ class UnimodalPdf(DensityEstimator):
             )
             self.MAP = self.min_result.x
             self.mode = self.MAP[0]
+
+        # convert the location and scale parameters back to the units of the data
+        self.sample = original_sample
+        self.fitted_samples = original_sample
+        self.MAP = self.MAP * array([scale, scale, 1.0, 1.0, 1.0, 1.0])
+        self.MAP[0] += loc
+        self.mode = self.MAP[0]
+        self.bounds = [
+            (loc + scale * self.bounds[0][0], loc + scale * self.bounds[0][1]),
+            (scale * self.bounds[1][0], scale * self.bounds[1][1]),
+            *self.bounds[2:],
+        ]
 
         # normalising constant for the MAP estimate curve
         self.map_lognorm = log(self.norm(self.MAP))
